@@ -113,6 +113,10 @@ class C17(PropertyCheck):
     # ================================================================== generators
     def cases(self, rng, tier):
         n = {"quick": 110, "thorough": 450, "search": 400}[tier]
+        if tier in ("quick", "thorough") and self._worker_runs is None:
+            # the worker-count runs go on in background subprocesses while the cases are evaluated;
+            # extra_checks gathers them
+            self._worker_runs = self._start_worker_runs(rng, tier)
         gens = [self.gen_alidir, self.gen_refdir, self.gen_trn, self.gen_ctm, self.gen_textgrid,
                 self.gen_er, self.gen_subset, self.gen_moments, self.gen_mvn]
         for i in range(n):
@@ -135,8 +139,8 @@ class C17(PropertyCheck):
 
     def gen_refdir(self, rng, tier):
         p, s = pick_affixes(rng)
-        utts = rand_utts(rng, rng.choice([1, 2, 3]))
-        bad_at = rng.randrange(len(utts)) if rng.random() < 0.3 else None
+        utts = rand_utts(rng, rng.choice([0, 1, 2, 3]))
+        bad_at = rng.randrange(len(utts)) if (utts and rng.random() < 0.3) else None
         use_feat = rng.random() < 0.3
         files = []
         for i, u in enumerate(utts):
@@ -221,7 +225,7 @@ class C17(PropertyCheck):
         p, s = pick_affixes(rng)
         t2i = self.gen_vocab(rng)
         shift = rng.choice([10.0, 10.0, 20.0, 2.5])
-        corpus = self.timed_corpus(rng, [t for t, _ in t2i], rng.choice([1, 2, 3]), shift)
+        corpus = self.timed_corpus(rng, [t for t, _ in t2i], rng.choice([0, 1, 2, 3]), shift)
         for u, toks in corpus:
             if rng.random() < 0.15:
                 toks[-1][2] = toks[-1][1]  # zero-length token
@@ -237,7 +241,7 @@ class C17(PropertyCheck):
             s = ".pt"
         t2i = self.gen_vocab(rng)
         shift = rng.choice([10.0, 10.0, 20.0, 5.0])
-        corpus = self.timed_corpus(rng, [t for t, _ in t2i], rng.choice([1, 2, 3]), shift, min_len_frames=1)
+        corpus = self.timed_corpus(rng, [t for t, _ in t2i], rng.choice([0, 1, 2, 3]), shift, min_len_frames=1)
         return {"kind": "textgrid", "prefix": p, "suffix": s, "tg_suffix": tgs, "t2i": t2i,
                 "corpus": corpus, "shift": shift}
 
@@ -245,7 +249,7 @@ class C17(PropertyCheck):
         p, s = pick_affixes(rng, 0.6)
         use_map = rng.random() < 0.4
         vocab = list(range(0, 5))
-        utts = sorted(rand_utts(rng, rng.choice([1, 2, 3, 4, 6])))
+        utts = sorted(rand_utts(rng, rng.choice([0, 1, 2, 3, 4, 6])))
         empty_ref = rng.random() < 0.12
         refs, hyps = [], []
         for u in utts:
@@ -281,7 +285,7 @@ class C17(PropertyCheck):
 
     def gen_subset(self, rng, tier):
         p, s = pick_affixes(rng, 0.5)
-        utts = rand_utts(rng, rng.choice([1, 2, 3, 4, 5, 8]))
+        utts = rand_utts(rng, rng.choice([0, 1, 2, 3, 4, 5, 8]))
         feat = [[p + u + s, rng.randint(1, 4)] for u in utts]
         taken = {f[0] for f in feat}
         for j in junk_names(rng, p, s, taken):
@@ -336,7 +340,7 @@ class C17(PropertyCheck):
 
     def gen_mvn(self, rng, tier):
         p, s = pick_affixes(rng, 0.5)
-        utts = rand_utts(rng, rng.choice([1, 2, 3, 4]))
+        utts = rand_utts(rng, rng.choice([0, 1, 2, 3, 4]))
         F = rng.randint(1, 3)
         dim_last = rng.random() < 0.7
         Tfix = rng.randint(1, 3)
@@ -712,6 +716,8 @@ class C17(PropertyCheck):
 
     def model_request(self, case):
         k = case["kind"]
+        if k == "workers":
+            return None        # no model: the oracle is the serial run of the same commands
         p, s = case["prefix"], case["suffix"]
         if k == "alidir":
             return {"op": "c17.alidir", "case": {"prefix": p, "suffix": s, "files": case["files"]}}
@@ -960,7 +966,7 @@ class C17(PropertyCheck):
         for u, toks in want.items():
             for f in self._times_ok(toks, impl["back"][u], case["shift"] / 1000.0):
                 fails.append((f"ctm round trip, utterance {u!r}: {f}", None))
-        if case["mapping"] == "channel" and impl["chans"] != ["B"]:
+        if case["mapping"] == "channel" and set(impl["chans"]) - {"B"}:
             fails.append((f"--channel B ignored: {impl['chans']}", None))
         return fails
 
@@ -1163,6 +1169,8 @@ class C17(PropertyCheck):
     # ================================================================== bookkeeping
     def nontrivial(self, case, impl):
         k = case["kind"]
+        if k == "workers":
+            return True
         n = len(case.get("files", case.get("corpus", case.get("refs", case.get("feat", [])))))
         nondefault = (case["prefix"], case["suffix"]) != ("", ".pt")
         if k == "er":
@@ -1174,6 +1182,8 @@ class C17(PropertyCheck):
 
     def tags(self, case, impl):
         k = case["kind"]
+        if k == "workers":
+            return ["kind=workers", f"workers.{case.get('start')}.{case['n_utts']}utts"]
         t = ["kind=" + k, "prefix=" + ("default" if case["prefix"] == "" else "set"),
              "suffix=" + ("default" if case["suffix"] == ".pt" else ("empty" if case["suffix"] == "" else "set"))]
         if k == "er":
@@ -1192,6 +1202,8 @@ class C17(PropertyCheck):
         return t
 
     def shrink(self, case):
+        if case.get("kind") == "workers":
+            return             # the corpora of the worker runs are minimal by construction
         for key in ("files", "corpus", "refs", "hyps", "feat", "extra", "replace", "ignore"):
             v = case.get(key)
             if isinstance(v, list) and v:
@@ -1211,42 +1223,142 @@ class C17(PropertyCheck):
                         yield c
 
     # ================================================================== worker counts
+    # A "workers" case is one pipeline of commands on one tiny corpus plus the pool settings to
+    # compare with the serial run: {"kind": "workers", "name", "n_utts", "start": "fork"|"spawn",
+    # "inputs", "outputs", "steps", "settings": [[workers, chunk], ...]} (settings[0] is the serial
+    # run). The runs happen in subprocesses of c17_cli.py under `timeout`: a pool that hangs is a
+    # machinery error (exit 2), never a violation.
+    _worker_runs = None
+
+    @staticmethod
+    def _workers_case(group, settings=None):
+        j0 = group["jobs"][0]
+        return {"kind": "workers", "name": group["name"], "n_utts": group["n_utts"], "start": group["start"],
+                "inputs": j0["inputs"], "outputs": j0["outputs"], "steps": j0["steps"],
+                "settings": settings or [[j["workers"], j.get("chunk")] for j in group["jobs"]]}
+
+    @staticmethod
+    def _workers_jobs(case):
+        return [{"inputs": case["inputs"], "outputs": case["outputs"], "steps": case["steps"],
+                 "workers": w, "chunk": c, "start": case.get("start", "spawn")} for w, c in case["settings"]]
+
+    def _start_worker_runs(self, rng, tier):
+        import c17_jobs as J
+        groups = J.make_small_groups(rng, tier)
+        if tier == "thorough":
+            groups = J.make_jobs(rng) + groups
+        return WorkerRuns(groups, n_procs=4 if tier == "quick" else 6, limit_s=300 if tier == "quick" else 900)
+
+    def impl_workers(self, case):
+        group = {"name": case["name"], "n_utts": case["n_utts"], "start": case.get("start", "spawn"),
+                 "jobs": self._workers_jobs(case)}
+        return {"runs": WorkerRuns([group], n_procs=1, limit_s=300).collect()[0]}
+
+    @staticmethod
+    def _workers_what(case, setting, diffs):
+        w, c = setting
+        return (f"{case['name']} on a corpus of {case['n_utts']} utterance(s): the run with --num-workers {w} "
+                f"--mp-chunk-size {c} ({case.get('start', 'spawn')} pool) differs from the serial run "
+                f"(--num-workers 0): " + "; ".join(diffs[:4]) + (f" (+{len(diffs) - 4} more)" if len(diffs) > 4 else ""))
+
+    def pred_workers(self, case, impl, model):
+        if self._err(impl):
+            return []          # the runs did not finish (timeout): no verdict, not a violation
+        base, fails = impl["runs"][0], []
+        for setting, run in zip(case["settings"][1:], impl["runs"][1:]):
+            diffs = K.diff_runs(case["steps"], base, run)
+            if diffs:
+                fails.append((self._workers_what(case, setting, diffs), None))
+        return fails
+
     def extra_checks(self, rng, tier, report):
-        if tier != "thorough":
-            report["extra"]["worker_runs"] = "thorough tier only (quick: --num-workers 0)"
+        if tier not in ("quick", "thorough"):
             return
-        from c17_jobs import make_jobs
-        groups = make_jobs(rng)
-        jobs = [j for g in groups for j in g["jobs"]]
-        with tempfile.TemporaryDirectory(prefix="c17w_", dir="/tmp") as d:
-            jp, op = os.path.join(d, "jobs.json"), os.path.join(d, "out.json")
-            with open(jp, "w") as f:
-                json.dump(jobs, f)
-            env = dict(os.environ)
-            from common import framework
-            env["VERIF_REPO"] = str(framework.REPO)
-            r = subprocess.run(["timeout", "900", sys.executable, str(HERE / "c17_cli.py"), jp, op],
-                               env=env, capture_output=True, text=True)
-            if r.returncode != 0:
-                raise RuntimeError(f"worker runs did not finish (exit {r.returncode}; 124 = timeout): {r.stderr[-400:]}")
-            with open(op) as f:
-                results = json.load(f)
-        i = 0
-        n_cmp = 0
-        for g in groups:
-            res = results[i:i + len(g["jobs"])]
-            i += len(g["jobs"])
-            base = res[0]
-            for j, r in zip(g["jobs"][1:], res[1:]):
+        import time
+        t0 = time.time()
+        runs = self._worker_runs or self._start_worker_runs(rng, tier)
+        self._worker_runs = None
+        per_group = runs.collect()
+        n_cmp, dist = 0, {}
+        for g, res in zip(runs.groups, per_group):
+            case = self._workers_case(g)
+            k = f"{g['start']}/{g['n_utts']} utts"
+            for setting, run in zip(case["settings"][1:], res[1:]):
                 n_cmp += 1
-                if r != base:
-                    report["failures"].append(Failure(
-                        {"kind": "workers", "job": g["name"], "workers": j["workers"], "chunk": j.get("chunk"),
-                         "inputs": g["jobs"][0]["inputs"], "steps": g["jobs"][0]["steps"]},
-                        f"{g['name']}: output with --num-workers {j['workers']} --mp-chunk-size {j.get('chunk')} "
-                        f"differs from the serial run", None))
-        report["extra"]["worker_runs"] = {"pipelines": len(groups), "settings_compared": n_cmp,
-                                          "settings": "workers {0,1,3} x chunk {1,2}"}
+                dist[k] = dist.get(k, 0) + 1
+                diffs = K.diff_runs(case["steps"], res[0], run)
+                if diffs:
+                    small = self._workers_case(g, [case["settings"][0], setting])
+                    report["failures"].append(Failure(small, self._workers_what(small, setting, diffs), None,
+                                                      {"serial": res[0], "with_workers": run}))
+        report["extra"]["worker_runs"] = {
+            "pipelines": sorted({g["name"].split(" --")[0] for g in runs.groups}),
+            "groups": len(runs.groups), "settings_compared": n_cmp, "by_start_method_and_corpus": dist,
+            "settings": "workers {0,1,2} x chunk {1,2} on 0/1/3 utterances"
+                        + ("; workers {0,1,3} x chunk {1,2} on 7 utterances" if tier == "thorough" else ""),
+            "subprocesses": len(runs.procs), "waited_s": round(time.time() - t0, 1),
+            "started_s_before_collect": round(t0 - runs.t_start, 1)}
+
+
+class WorkerRuns:
+    """The jobs of some groups spread over parallel subprocesses of c17_cli.py (longest first onto
+    the least loaded), each under `timeout`; started at construction, gathered by `collect()`."""
+
+    def __init__(self, groups, n_procs, limit_s):
+        import time
+        import c17_jobs as J
+        from common import framework
+        self.groups, self.procs, self.t_start = groups, [], time.time()
+        self.dir = tempfile.mkdtemp(prefix="c17w_", dir="/tmp")
+        flat = sorted(((J.cost(j, g["n_utts"]), gi, ji) for gi, g in enumerate(groups)
+                       for ji, j in enumerate(g["jobs"])), key=lambda x: (-x[0], x[1], x[2]))
+        bins = [[0.0, []] for _ in range(max(1, n_procs))]
+        for c, gi, ji in flat:
+            b = min(bins, key=lambda b: b[0])
+            b[0] += c
+            b[1].append((gi, ji))
+        env = dict(os.environ)
+        env["VERIF_REPO"] = str(framework.REPO)
+        env.setdefault("OMP_NUM_THREADS", "1")
+        try:
+            for k, (_, items) in enumerate(bins):
+                if not items:
+                    continue
+                jp, op, ep = (os.path.join(self.dir, f"{x}{k}.json") for x in ("jobs", "out", "err"))
+                with open(jp, "w") as f:
+                    json.dump([groups[gi]["jobs"][ji] for gi, ji in items], f)
+                with open(ep, "w") as ef:
+                    p = subprocess.Popen(["timeout", str(limit_s), sys.executable, str(HERE / "c17_cli.py"), jp, op],
+                                         env=env, stdout=subprocess.DEVNULL, stderr=ef)
+                self.procs.append((p, items, op, ep))
+        except Exception:
+            self._cleanup()
+            raise
+
+    def _cleanup(self):
+        import shutil
+        for p, _, _, _ in self.procs:
+            if p.poll() is None:
+                p.kill()
+        shutil.rmtree(self.dir, ignore_errors=True)
+
+    def collect(self):
+        """-> per group, the list of results of its jobs. Raises (machinery error) when a
+        subprocess timed out or crashed."""
+        results = {}
+        try:
+            for p, items, op, ep in self.procs:
+                rc = p.wait()
+                if rc != 0:
+                    with open(ep, errors="replace") as f:
+                        tail = f.read()[-400:]
+                    raise RuntimeError(f"worker runs did not finish (exit {rc}; 124 = timeout): {tail}")
+                with open(op) as f:
+                    for (gi, ji), r in zip(items, json.load(f)):
+                        results[(gi, ji)] = r
+        finally:
+            self._cleanup()
+        return [[results[(gi, ji)] for ji in range(len(g["jobs"]))] for gi, g in enumerate(self.groups)]
 
 
 CHECK = C17()
